@@ -2,8 +2,17 @@
  * defective credentials.
  *   auth <proto> <role client|server> <defect> <seed>
  * role = the VERIFYING endpoint.  Prints rc (client handshake return) and rs (server).
- * defects: valid untrusted-root expired not-yet-valid issuer-not-ca bad-cert-sig key-mismatch
- *          enc-key-mismatch (TLCP server only) no-cert (client cert only) ca-expired
+ * defects: valid untrusted-root expired not-yet-valid issuer-not-ca bad-cert-sig
+ *          key-mismatch      peer holds the right certificate but signs with another private key
+ *                            (= wrong-key ServerKeyExchange / CertificateVerify)
+ *          leaf-swapped      peer presents ANOTHER valid leaf of the same CA, keeps its own key
+ *          enc-key-mismatch  TLCP server: decryption key does not belong to the encryption certificate
+ *          enc-cert-other-ca TLCP server: encryption certificate issued by a different CA than the signing one
+ *          no-cert           client has no certificate although the server asks for one
+ *          empty-cert        TLCP / TLS 1.2: the client's Certificate message carries an empty list (built by a
+ *                            link-time interposer in the client thread, transcripts stay consistent);
+ *                            TLS 1.3: the proxy replaces the client's {Certificate} record by an empty one
+ *                            protected with the captured handshake traffic key
  */
 #include "common.h"
 #include "entropy.h"
@@ -12,6 +21,8 @@
 
 static pki_t pki; static int pki_ready;
 static cred_t bad_leaf_s, bad_leaf_c;      /* leaves issued by a non-CA certificate */
+static cred_t alt_leaf_s, alt_leaf_c;      /* second valid leaves under the same CA */
+static cred_t senc_b;                      /* TLCP encryption certificate issued by the other hierarchy's CA */
 static pki_t *get_pki(void) {
 	if (!pki_ready) {
 		ent_seed(0xC09000, -1); ent_clock(T0);
@@ -19,6 +30,9 @@ static pki_t *get_pki(void) {
 		/* issuer = the client's end-entity certificate (no basicConstraints CA, no keyCertSign) */
 		if (mk_leaf(&bad_leaf_s, &pki.csign, "localhost", X509_KU_DIGITAL_SIGNATURE, T0 - DAY, T0 + 365 * DAY) != 1) return NULL;
 		if (mk_leaf(&bad_leaf_c, &pki.ssign, "client", X509_KU_DIGITAL_SIGNATURE, T0 - DAY, T0 + 365 * DAY) != 1) return NULL;
+		if (mk_leaf(&alt_leaf_s, &pki.ca[0], "localhost", X509_KU_DIGITAL_SIGNATURE, T0 - DAY, T0 + 365 * DAY) != 1) return NULL;
+		if (mk_leaf(&alt_leaf_c, &pki.ca[0], "client", X509_KU_DIGITAL_SIGNATURE, T0 - DAY, T0 + 365 * DAY) != 1) return NULL;
+		if (mk_leaf(&senc_b, &pki.ca2, "localhost", X509_KU_KEY_ENCIPHERMENT, T0 - DAY, T0 + 365 * DAY) != 1) return NULL;
 		pki_ready = 1;
 	}
 	return &pki;
@@ -30,10 +44,12 @@ static void handle(size_t nw, char **w) {
 		uint64_t seed = strtoull(w[4], NULL, 10);
 		pki_t *k = get_pki(); session_t *S;
 		uint8_t *schain = NULL, *cchain = NULL; size_t schainlen = 0, cchainlen = 0;
-		const SM2_KEY *skey, *sekey, *ckey; const cred_t *sleaf, *cleaf; time_t vclock = T0;
+		const SM2_KEY *skey, *sekey, *ckey; const cred_t *sleaf, *cleaf, *sencleaf; time_t vclock = T0;
+		uint8_t repl[64]; size_t repllen = 0;
 		int tlcp = protocol == TLS_protocol_tlcp;
 		if (!k || protocol < 0) { printf("ERR setup"); return; }
 		S = calloc(1, sizeof(*S));
+		sencleaf = &k->senc;
 		sleaf = &k->ssign; cleaf = &k->csign; skey = &k->ssign.key; sekey = &k->senc.key; ckey = &k->csign.key;
 		/* the defect applies to the credentials of the peer of the verifier */
 		if (!strcmp(df, "valid")) { }
@@ -42,19 +58,21 @@ static void handle(size_t nw, char **w) {
 		else if (!strcmp(df, "not-yet-valid")) vclock = T0 - 36 * 3600;   /* leaf not yet valid, CAs already valid */
 		else if (!strcmp(df, "issuer-not-ca")) { if (verifier_is_client) { sleaf = &bad_leaf_s; skey = &bad_leaf_s.key; } else { cleaf = &bad_leaf_c; ckey = &bad_leaf_c.key; } }
 		else if (!strcmp(df, "key-mismatch")) { if (verifier_is_client) skey = &k->csign.key; else ckey = &k->ssign.key; }
+		else if (!strcmp(df, "leaf-swapped")) { if (verifier_is_client) sleaf = &alt_leaf_s; else cleaf = &alt_leaf_c; }   /* keys stay those of the original leaves */
 		else if (!strcmp(df, "enc-key-mismatch")) { sekey = &k->csign.key; }
-		else if (!strcmp(df, "bad-cert-sig") || !strcmp(df, "no-cert")) { }
+		else if (!strcmp(df, "enc-cert-other-ca")) { sencleaf = &senc_b; sekey = &senc_b.key; }
+		else if (!strcmp(df, "bad-cert-sig") || !strcmp(df, "no-cert") || !strcmp(df, "empty-cert")) { }
 		else { printf("ERR bad-defect"); free(S); return; }
 
 		if (!strcmp(df, "untrusted-root")) {
 			/* chain under the second hierarchy */
-			if (verifier_is_client) { chain_add(&schain, &schainlen, sleaf); if (tlcp) chain_add(&schain, &schainlen, &k->senc); chain_add(&schain, &schainlen, &k->ca2); chain_build(&cchain, &cchainlen, k, cleaf, NULL); }
-			else { chain_add(&cchain, &cchainlen, cleaf); chain_add(&cchain, &cchainlen, &k->ca2); chain_build(&schain, &schainlen, k, sleaf, tlcp ? &k->senc : NULL); }
+			if (verifier_is_client) { chain_add(&schain, &schainlen, sleaf); if (tlcp) chain_add(&schain, &schainlen, sencleaf); chain_add(&schain, &schainlen, &k->ca2); chain_build(&cchain, &cchainlen, k, cleaf, NULL); }
+			else { chain_add(&cchain, &cchainlen, cleaf); chain_add(&cchain, &cchainlen, &k->ca2); chain_build(&schain, &schainlen, k, sleaf, tlcp ? sencleaf : NULL); }
 		} else if (!strcmp(df, "issuer-not-ca")) {
-			if (verifier_is_client) { chain_add(&schain, &schainlen, sleaf); if (tlcp) chain_add(&schain, &schainlen, &k->senc); chain_add(&schain, &schainlen, &k->csign); chain_add(&schain, &schainlen, &k->ca[0]); chain_build(&cchain, &cchainlen, k, cleaf, NULL); }
-			else { chain_add(&cchain, &cchainlen, cleaf); chain_add(&cchain, &cchainlen, &k->ssign); chain_add(&cchain, &cchainlen, &k->ca[0]); chain_build(&schain, &schainlen, k, sleaf, tlcp ? &k->senc : NULL); }
+			if (verifier_is_client) { chain_add(&schain, &schainlen, sleaf); if (tlcp) chain_add(&schain, &schainlen, sencleaf); chain_add(&schain, &schainlen, &k->csign); chain_add(&schain, &schainlen, &k->ca[0]); chain_build(&cchain, &cchainlen, k, cleaf, NULL); }
+			else { chain_add(&cchain, &cchainlen, cleaf); chain_add(&cchain, &cchainlen, &k->ssign); chain_add(&cchain, &cchainlen, &k->ca[0]); chain_build(&schain, &schainlen, k, sleaf, tlcp ? sencleaf : NULL); }
 		} else {
-			chain_build(&schain, &schainlen, k, sleaf, tlcp ? &k->senc : NULL);
+			chain_build(&schain, &schainlen, k, sleaf, tlcp ? sencleaf : NULL);
 			chain_build(&cchain, &cchainlen, k, cleaf, NULL);
 		}
 		if (!strcmp(df, "bad-cert-sig")) {
@@ -72,6 +90,15 @@ static void handle(size_t nw, char **w) {
 		S->c.seed = seed * 2 + 1; S->s.seed = seed * 2 + 2;
 		if (verifier_is_client) S->c.clock = vclock; else S->s.clock = vclock;
 		S->c.post = S->s.post = 1;
+		if (!strcmp(df, "empty-cert") && !verifier_is_client) {
+			if (protocol != TLS_protocol_tls13) S->c.empty_cert = 1;
+			else {
+				/* TLS 1.3: the proxy swaps the client's {Certificate} (c2s record 1) for an empty one; it is
+				 * protected when the record passes, with the client's handshake write key (see px_forward) */
+				S->px.fault.kind = F_REPLACE; S->px.fault.dir = 0; S->px.fault.idx = 1; S->px.fault.repl = repl; S->px.fault.repllen = 0;
+				S->px.craft13 = &S->c.view; (void)repllen;
+			}
+		}
 		session_run(S, 1500, 0);
 		printf("rc=%d rs=%d okc=%d oks=%d", S->c.hs_ret, S->s.hs_ret, S->c.post_accepted == 2 && !S->c.post_deviates, S->s.post_accepted == 2 && !S->s.post_deviates);
 		session_close(S); free(schain); free(cchain); free(S);
